@@ -19,7 +19,8 @@ RULE = ("Specifier triples (a, b, c): values of three expression trees over one 
         "distributivity x2, involution, De Morgan x2, complements x2, compared with ==. Marker triples: three "
         "markers over one or two variables (size-bounded), 12 law instances without ~, compared by evaluation "
         "vectors over critical environments. Non-trivial/distinct: triples whose members are pairwise different "
-        "and none empty/universal.")
+        "and none empty/universal."
+        " Structured marker triples: a conjunction/group, its operand-order twin and a flat union over 9-12 further atoms under the cheap laws.")
 ASSUMPTIONS = [
     "specifier laws are demanded as equalities of returned objects (==), marker laws as equal evaluation vectors",
     "marker environments are sampled from operand-derived critical values (final-release interpreters)",
